@@ -74,6 +74,10 @@ def run(tier, seed):
         "'||host|' with nothing after the host part is left unspecified (adjudication in DESIGN.md)",
         "full-regex rules (/re/) are outside the specification's pattern language; see C02 level_note",
     ]
+    # the less travelled paths: rules added one at a time (add_filter histories) and engines loaded from images
+    from checks import enginecommon
+    enginecommon.histories(v, wd, "blocker", 3 if tier == "quick" else 4)
+    netcommon.mc_and_replay(v, wd, "randr", 300 if tier == "quick" else 3000, False, workers=12, extra=["-seed", str(seed + 3000)])
     return v.finish("model_checking",
                     "M1/M2: all pattern bodies of length 1..%d over {a,b,.,/,^,*} and over {a,+,(,.,/,^} x 3 left anchors x 2 right anchors x 30 URLs whose hosts repeat the anchor text; a pattern is non-trivial if it matches at least one URL of the universe. M3: seeded random patterns (len<=14, wider alphabet) x random URLs validated by TLC against the same Ideal operator" % maxlen,
                     exhaustive=True)
